@@ -604,8 +604,11 @@ fn c05(cx: &mut Ctx<'_, '_>) {
         let atts: Vec<&Attempt> = ais.iter().map(|i| &an.attempts[*i]).collect();
         let mut v: Vec<(String, String)> = Vec::new();
         let n = info.retry.map(|r| r.0);
+        if info.retry_start > 0 && !atts.is_empty() {
+            cx.t.count("c05.scenarios_resumed_with_nonzero_retry_counter", 1);
+        }
         for (k, a) in atts.iter().enumerate() {
-            let exp = n.map(|n| (k, n.wrapping_sub(k)));
+            let exp = n.map(|n| (info.retry_start + k, n.wrapping_sub(k)));
             if a.retries != exp || n.is_some_and(|n| k > n) {
                 v.push(("counter".into(), format!("attempt {k} carries retries {:?}, expected {exp:?} (budget {n:?})", a.retries)));
             }
@@ -787,32 +790,39 @@ fn c06(cx: &mut Ctx<'_, '_>) {
             }
         }
     }
-    // work conservation at quiescent points (serial-free, non-fail-fast-tripped cases)
+    // work conservation at quiescent points (non-fail-fast-tripped cases). With @serial scenarios in
+    // the case only the points at which certainly no serial scenario is running or ready are judged:
+    // a ready serial scenario legitimately stops the refilling, one that still waits for its retry
+    // delay does not.
     let any_serial = an.sc.values().any(|i| i.serial);
     let total: usize = an.sc.len();
-    if !any_serial && out.end == End::Ended {
+    if out.end == End::Ended {
         let kk = k.unwrap_or(usize::MAX);
-        // event index -> state
-        let mut finished_final: HashSet<u32> = HashSet::new(); // scenarios with no more attempts due
-        let mut started_attempts: HashSet<(usize, Option<(usize, usize)>)> = HashSet::new();
-        let mut pending_retry: HashMap<u32, (usize, bool)> = HashMap::new(); // uid -> (ev idx of Finished, delayed)
+        // uid -> (ev idx of Finished, delayed)
+        let mut pending_retry: HashMap<u32, (usize, bool)> = HashMap::new();
         let mut tripped_at: Option<usize> = None;
         let mut qi = 0;
         let qps = &out.qpoints;
         let mut in_flight = 0i64;
+        let mut serial_in_flight = 0i64;
         let mut last_finish_q: Option<u32> = None;
         let mut started_uids: HashSet<u32> = HashSet::new();
         let mut violations: Vec<String> = Vec::new();
         let mut checks = 0u64;
+        let mut checks_serial_waiting = 0u64;
+        let t_of_q = |n: u32| qps.iter().find(|q| q.q == n).map(|q| q.t);
+        #[allow(clippy::too_many_arguments)]
         let eval_q = |upto: usize,
                           in_flight: i64,
+                          serial_in_flight: i64,
                           started_uids: &HashSet<u32>,
                           pending_retry: &HashMap<u32, (usize, bool)>,
                           tripped_at: Option<usize>,
                           last_finish_q: Option<u32>,
                           qi: &mut usize,
                           violations: &mut Vec<String>,
-                          checks: &mut u64| {
+                          checks: &mut u64,
+                          checks_serial_waiting: &mut u64| {
             while *qi < qps.len() && qps[*qi].n_events <= upto {
                 let q = &qps[*qi];
                 *qi += 1;
@@ -821,6 +831,43 @@ fn c06(cx: &mut Ctx<'_, '_>) {
                 }
                 if tripped_at.is_some() {
                     continue;
+                }
+                let mut serial_waiting_for_delay = false;
+                if any_serial {
+                    if serial_in_flight > 0 {
+                        continue;
+                    }
+                    // a first attempt of a serial scenario that may already be stored
+                    let maybe_stored = an.sc.iter().any(|(uid, info)| {
+                        info.serial
+                            && !started_uids.contains(uid)
+                            && out.pulls.iter().any(|p| p.what == format!("item:{}", info.item) && p.q <= q.q)
+                    });
+                    if maybe_stored {
+                        continue;
+                    }
+                    // retries of serial scenarios: ready unless the delay has certainly not expired
+                    let mut maybe_ready = false;
+                    for (uid, (fin_ev, delayed)) in pending_retry {
+                        let Some(info) = an.sc.get(uid) else { continue };
+                        if !info.serial {
+                            continue;
+                        }
+                        let ms = info.retry.and_then(|x| x.1);
+                        // the deadline was taken after the Finished event was sent, hence after
+                        // the quiescent point that precedes its receipt
+                        let rq = out.evs[*fin_ev].q;
+                        let base = if rq == 0 { None } else { t_of_q(rq - 1) };
+                        match (delayed, ms, base) {
+                            (true, Some(ms), Some(base)) if q.t < base + std::time::Duration::from_millis(ms) => {
+                                serial_waiting_for_delay = true;
+                            }
+                            _ => maybe_ready = true,
+                        }
+                    }
+                    if maybe_ready {
+                        continue;
+                    }
                 }
                 // certainly-ready backlog: first attempts of scenarios whose
                 // feature was yielded before the last completion (or before
@@ -846,37 +893,61 @@ fn c06(cx: &mut Ctx<'_, '_>) {
                 }
                 backlog += pending_retry.values().filter(|(_, delayed)| !delayed).count();
                 *checks += 1;
+                if serial_waiting_for_delay {
+                    *checks_serial_waiting += 1;
+                }
                 if (in_flight as usize) < kk && backlog > 0 && (in_flight as usize) < kk.min(in_flight as usize + backlog) {
                     violations.push(format!(
-                        "quiescent point q{} after event {}: {} in flight, limit {:?}, {} certainly-ready concurrent scenario(s) waiting ({})",
-                        q.q, upto, in_flight, k, backlog, q.decision
+                        "quiescent point q{} after event {}: {} in flight, limit {:?}, {} certainly-ready concurrent scenario(s) waiting{} ({})",
+                        q.q,
+                        upto,
+                        in_flight,
+                        k,
+                        backlog,
+                        if serial_waiting_for_delay { ", a @serial retry still waits for its delay" } else { "" },
+                        q.decision
                     ));
                 }
             }
         };
         for (i, r) in out.evs.iter().enumerate() {
-            eval_q(i, in_flight, &started_uids, &pending_retry, tripped_at, last_finish_q, &mut qi, &mut violations, &mut checks);
+            eval_q(
+                i,
+                in_flight,
+                serial_in_flight,
+                &started_uids,
+                &pending_retry,
+                tripped_at,
+                last_finish_q,
+                &mut qi,
+                &mut violations,
+                &mut checks,
+                &mut checks_serial_waiting,
+            );
             if let (Ev::Sc(sev), Some(s)) = (&r.ev, r.s) {
+                let is_serial = an.sc.get(&s.uid).is_some_and(|i| i.serial);
                 match sev {
                     ScEv::Started => {
                         in_flight += 1;
+                        if is_serial {
+                            serial_in_flight += 1;
+                        }
                         started_uids.insert(s.uid);
-                        started_attempts.insert((s.ptr, r.retries));
                         pending_retry.remove(&s.uid);
                     }
                     ScEv::Finished => {
                         in_flight -= 1;
+                        if is_serial {
+                            serial_in_flight -= 1;
+                        }
                         last_finish_q = Some(r.q);
                         let a = an.attempts.iter().find(|a| a.s_ptr == s.ptr && a.retries == r.retries);
                         if let Some(a) = a {
                             if a.failed() && a.retries.is_some_and(|x| x.1 > 0) {
                                 let delayed = an.sc.get(&s.uid).and_then(|i| i.retry).and_then(|x| x.1).is_some();
                                 pending_retry.insert(s.uid, (i, delayed));
-                            } else {
-                                finished_final.insert(s.uid);
-                                if a.is_final_failure() && an.case.cfg.fail_fast() {
-                                    tripped_at.get_or_insert(i);
-                                }
+                            } else if a.is_final_failure() && an.case.cfg.fail_fast() {
+                                tripped_at.get_or_insert(i);
                             }
                         }
                     }
@@ -888,10 +959,10 @@ fn c06(cx: &mut Ctx<'_, '_>) {
             }
         }
         cx.t.count("c06.conservation_checks", checks);
+        cx.t.count("c06.conservation_checks_while_serial_retry_waits", checks_serial_waiting);
         if let Some(msg) = violations.first() {
             cx.viol("C06", "limit:not-reached", msg.clone(), json!({"all": violations}));
         }
-        let _ = (finished_final, started_attempts);
     }
     if k.is_some_and(|k| total > k) {
         cx.t.nontrivial_case("C06");
@@ -932,13 +1003,13 @@ fn c07(cx: &mut Ctx<'_, '_>) {
             matches!(r.ev, Ev::Sc(_)) && r.s.is_some_and(|s| (s.ptr, r.retries) != (a.s_ptr, a.retries))
         });
         let witness = json!({"serial_attempt": an.attempt_words(a), "window": (st.saturating_sub(6)..=(fi + 3).min(out.evs.len() - 1)).map(|i| an.ev(i).short()).collect::<Vec<_>>()});
-        let retry_delayed = a.retries.is_some_and(|r| r.0 > 0) && info.retry.is_some_and(|r| r.1.is_some());
+        let retry_delayed = a.retries.is_some_and(|r| r.0 > info.retry_start) && info.retry.is_some_and(|r| r.1.is_some());
         let late_feature = out.pulls.iter().any(|p| p.what == format!("item:{}", info.item) && p.evs_before > 0);
         let why = if retry_delayed {
             "delayed-retry"
         } else if late_feature {
             "late-feature"
-        } else if a.retries.is_some_and(|r| r.0 > 0) {
+        } else if a.retries.is_some_and(|r| r.0 > info.retry_start) {
             "retry"
         } else {
             "first-attempt"
@@ -978,7 +1049,7 @@ fn c07(cx: &mut Ctx<'_, '_>) {
             }
         }
         // non-trivial: the serial attempt became ready while something else was in flight
-        let ready_at = if a.retries.is_some_and(|r| r.0 > 0) {
+        let ready_at = if a.retries.is_some_and(|r| r.0 > info.retry_start) {
             an.by_sc[&a.sc_uid]
                 .iter()
                 .map(|i| &an.attempts[*i])
@@ -1379,7 +1450,7 @@ fn c18(cx: &mut Ctx<'_, '_>) {
     for (uid, ais) in &an.by_sc {
         let Some(info) = an.sc.get(uid) else { continue };
         let first = &an.attempts[ais[0]];
-        let exp = info.retry.map(|(n, _)| (0usize, n));
+        let exp = info.retry.map(|(n, _)| (info.retry_start, n));
         if first.started.is_some() && first.retries != exp {
             cx.viol(
                 "C18",
